@@ -124,6 +124,11 @@ impl<'fds, 'buf> UnmarshalContext<'fds, 'buf> {
         self.cursor.read_u8_slice(self.byteorder)
     }
 
+    /// Reads the length of an array in bytes and checks that it is not bigger than the protocol allows
+    pub fn read_array_len(&mut self) -> UnmarshalResult<usize> {
+        self.cursor.read_array_len(self.byteorder)
+    }
+
     pub fn read_raw(&mut self, length: usize) -> UnmarshalResult<&'buf [u8]> {
         self.cursor.read_raw(length)
     }
@@ -219,11 +224,19 @@ impl<'buf> Cursor<'buf> {
         Ok(value)
     }
 
+    pub fn read_array_len(&mut self, byteorder: ByteOrder) -> UnmarshalResult<usize> {
+        let bytes_in_array = self.read_u32(byteorder)? as usize;
+        if bytes_in_array > crate::wire::unmarshal::MAX_ARRAY_LEN {
+            return Err(UnmarshalError::MessageTooLong);
+        }
+        Ok(bytes_in_array)
+    }
+
     pub fn read_u8_slice(&mut self, byteorder: ByteOrder) -> UnmarshalResult<&'buf [u8]> {
         self.align_to(4)?;
-        let bytes_in_array = self.read_u32(byteorder)?;
+        let bytes_in_array = self.read_array_len(byteorder)?;
 
-        let elements = self.read_raw(bytes_in_array as usize)?;
+        let elements = self.read_raw(bytes_in_array)?;
 
         Ok(elements)
     }
